@@ -332,7 +332,12 @@ fn main() {
     // --text (always under Miri): hand-written event lines, no allocator events; --lite: value + triple only
     let text = cfg!(miri) || args.extra.iter().any(|x| x == "--text");
     let lite = text || args.extra.iter().any(|x| x == "--lite");
+    // a history that kills the process (abort from a std precondition check, a fault) is left in <out>.current
+    let cur_path = format!("{}.current", args.out);
     let mut emit = |log: &mut Log, case: &Value, src: &str, faults: &mut u64| {
+        if !cfg!(miri) {
+            let _ = std::fs::write(&cur_path, format!("{}\n", case));
+        }
         let _ = drain_events();
         let mut ev = run_history_opt(case, &mut window, lite);
         // everything the history allocated is gone by now; late frees of harness temporaries included
@@ -390,33 +395,19 @@ fn main() {
         // capacity probes (UBig): the history is executed once unrecorded to learn the capacity each register ends with
         // (allocation sizes depend on the operations only), then set_bit steps are appended at bit indices relative to
         // that capacity: the last bit the buffer holds, the first one beyond it, one word further
-        if kind == "U" && i % 3 == 0 {
+        if i % 3 == 0 {
             let mut quiet = |f: &mut dyn FnMut()| -> Value {
                 f();
                 json!([])
             };
             let dry = run_history_opt(&case, &mut quiet, true);
             let _ = drain_events();
-            let mut extra: Vec<Value> = Vec::new();
-            if let Some(ts) = dry["fin"]["t"].as_array() {
-                for (r, t) in ts.iter().enumerate() {
-                    let cap = t[0]["cap"].as_u64().unwrap_or(0);
-                    if t[0]["heap"].as_bool().unwrap_or(false) && extra.len() < 2 && rng.coin() {
-                        let k = rng.below(64);
-                        let n = match rng.below(4) {
-                            0 => 64 * cap - 1,
-                            1 => 64 * (cap + 1) + k,
-                            _ => 64 * cap + k,
-                        };
-                        extra.push(json!({"op": "setbit", "d": r + 1, "a": r + 1, "n": n}));
-                    }
-                }
-            }
-            if let Some(steps) = case["steps"].as_array_mut() {
-                steps.extend(extra);
-            }
+            add_probes(&mut case, &mut rng, kind, &dry["fin"]["t"]);
         }
         emit(&mut log, &case, "rnd", &mut faults);
+    }
+    if !cfg!(miri) {
+        let _ = std::fs::remove_file(format!("{}.current", args.out));
     }
     let n = log.finish();
     eprintln!("c17: {} histories", n);
